@@ -257,7 +257,7 @@ SOURCES = {
     'C01': ('flat', 'nest', 'chan', 'deep', 'unroll2', 'unroll3', 'sim', 'repotests', 'library'),
     'C02': ('twinblocks', 'flat', 'nest', 'chan', 'deep', 'obsnest', 'sim', 'repotests', 'library'),
     'C04': ('flat', 'nest', 'nest0', 'sim', 'repotests'),
-    'C05': ('kinds', 'copyapplied', 'twinops', 'twinblocks', 'nest', 'sim'),
+    'C05': ('kinds', 'copyapplied', 'twinops', 'twinblocks', 'nest', 'mask', 'sim'),
     'C06': ('unroll', 'unroll2', 'unroll3', 'twinblocks', 'nest', 'sim', 'library'),
     'C07': ('acq', 'acqdir', 'sim'),
     'C11': ('flatten', 'flatdir', 'sim', 'library'),
@@ -308,6 +308,17 @@ def programs_for(pid, tier, seed):
       reps=[('fixed', 1), ('fixed', 0)], acts=('NewCircuit', 'AddOp', 'AddSub'), linktypes=('FB', 'JE'),
       max_circs=2, max_objs=7, max_steps=6, cap=800 if quick else 6000, one_in=10 if quick else 2, workers=4, min_emit=4,
       keep=lambda p: any(s['a'] == 'AddSub' for s in p))
+    # (2a''') extension: flat circuits rebuilt by replace_operation with masks (advisory clauses E05.mask.*; the rebuilt circuit is
+    #         then judged like any other circuit)
+    g('mask', [gen.leaf('Wait', [0], [[0, 'ALL']], ['fixed', 4]), gen.leaf('Rx180', [0], [[0, 'MICROWAVE']], ['global', 'MW']),
+               gen.leaf('VirtualPark', [1], [[1, 'FLUX']], ['global', 'FL']), gen.leaf('CPhase', [0, 1], [[0, 'FLUX'], [0, 'MICROWAVE'], [1, 'FLUX'], [1, 'MICROWAVE']], ['global', 'FL']),
+               gen.leaf('DispersiveMeasure', [1], [[1, 'READOUT']], ['global', 'RO'])],
+      acts=('NewCircuit', 'AddOp', 'Mask'), linktypes=('FB', 'JS'), max_circs=2, max_objs=9, max_steps=5, workers=4, min_emit=4,
+      cap=300 if quick else 4000, one_in=4 if quick else 1,
+      masks=[gen.mask_list(gen.mask('op', kind='Rx180', q=0)), gen.mask_list(gen.mask('chan', q=0, chan='MICROWAVE')),
+             gen.mask_list(gen.mask('chan', q=1, chan='FLUX'), gen.mask('chan', q=1, chan='READOUT')),
+             gen.mask_list(gen.mask('two', q=0, chan='FLUX')), gen.mask_list(gen.mask('two', q=1, q2=0, chan='FLUX'), gen.mask('op', kind='Wait', q=0))],
+      keep=lambda p: p[-1]['a'] == 'Mask')
     # (2b) exhaustive, implicit rule across nesting: one qubit, every channel kind, no explicit relation; a sub-circuit's
     #      channels are what its operations occupy (ALL bridges the specific channels)
     one = [gen.leaf('Wait', [0], [[0, ch]], ['fixed', 4]) for ch in ('ALL', 'MICROWAVE', 'FLUX')] + meas((0,), tags=('',))
